@@ -53,6 +53,8 @@ class Run:
         import glob
 
         n = 0
+        if os.environ.get("VERIF_SKIP_REGRESSIONS"):
+            return  # development aid: measure what the generators find on their own
         for path in sorted(glob.glob(os.path.join(VERIF_DIR, "regressions", self.prop, "*.json"))):
             with open(path, encoding="utf-8") as f:
                 rec = json.load(f)
